@@ -157,6 +157,7 @@ class Fact:
         self.kind, self.node = kind, node
         self.func = ctx.func
         self.qname = ctx.qname
+        self.root = ctx.stack[0] if ctx.stack else ctx.qname      # the function whose analysis reached this (through inlined helpers)
         self.path = env.get("$path", ()) if env is not None else ()
         self.loops = env.get("$loops", ()) if env is not None else ()
         self.order = kw.pop("order", 0)
@@ -183,12 +184,14 @@ class Sym(Interp):
         self.facts.append(f)
         return f
 
-    def select(self, kind=None, qname=None, **kw):
+    def select(self, kind=None, qname=None, root=None, **kw):
         out = []
         for f in self.facts:
             if kind is not None and f.kind != kind:
                 continue
             if qname is not None and f.qname != qname:
+                continue
+            if root is not None and f.root != root:
                 continue
             if all(getattr(f, k, None) == v for k, v in kw.items()):
                 out.append(f)
